@@ -127,6 +127,10 @@ fn main() {
                 std::process::exit(0);
             }
         }
+        "c14-arm" => {
+            exec::set_worker(0);
+            std::process::exit(c14::arm_main(args.get(2).map(|s| s.as_str()).unwrap_or("")));
+        }
         "selfcheck" => {
             let code = props::selfcheck(args.get(2).map(|s| s.as_str()).unwrap_or("determinism"), workers);
             std::process::exit(code);
